@@ -290,6 +290,11 @@ def tstep (s : TSys) : TChoice → TSys
 
 def texec (s : TSys) (sched : List TChoice) : TSys := sched.foldl tstep s
 
+/-- a choice of the run task (as opposed to the writer task) -/
+def TChoice.isRunTask : TChoice → Bool
+  | .run | .cancel => true
+  | _ => false
+
 /-- rows appended by the writer, ids assigned one after the other -/
 def appendResults (tbl : List (Nat × Nat × Nat)) : List (Nat × Nat) → List (Nat × Nat × Nat)
   | [] => tbl
